@@ -3184,17 +3184,17 @@ impl<'w, 'r> LpcSubframeParameters<'w, 'r> {
             let (previous, current) = channel.split_at(split);
 
             residuals.push(
-                current[0]
-                    .checked_sub(
-                        (previous
+                i32::try_from(
+                    i64::from(current[0])
+                        - (previous
                             .iter()
                             .rev()
                             .zip(&parameters.coefficients)
                             .map(|(x, y)| *x as i64 * *y as i64)
                             .sum::<i64>()
-                            >> parameters.shift) as i32,
-                    )
-                    .ok_or(ResidualOverflow)?,
+                            >> parameters.shift),
+                )
+                .map_err(|_| ResidualOverflow)?,
             );
         }
 
